@@ -164,8 +164,9 @@ func c05Spec(eco, construct, xs, ys, zs, pre string, arity int) c05Out {
 		if arity < 2 {
 			return c05Out{}
 		}
-		o.rng = "~=" + base
-		o.lo = base
+		// the base may carry a post-release suffix: ~=2.2.post3 is >=2.2.post3, ==2.*
+		o.rng = "~=" + base + pre
+		o.lo = base + pre
 		o.skipHiPre = false
 		if arity == 2 {
 			o.hi = dot2(x+1, 0)
@@ -173,15 +174,15 @@ func c05Spec(eco, construct, xs, ys, zs, pre string, arity int) c05Out {
 			o.hi = dot2(x, y+1)
 		}
 	case "pypi prefix":
-		if arity == 3 {
-			return c05Out{}
-		}
 		o.rng = "==" + base + ".*"
 		o.skipHiPre = false
-		if arity == 1 {
+		switch arity {
+		case 1:
 			o.lo, o.hi = dot2(x, 0), dot2(x+1, 0)
-		} else {
+		case 2:
 			o.lo, o.hi = dot3(x, y, 0), dot3(x, y+1, 0)
+		default:
+			o.lo, o.hi = dot3(x, y, z), dot3(x, y, z+1)
 		}
 	default:
 		return c05Out{}
